@@ -143,6 +143,10 @@ fn choose_transfer_encoding(
             // getting list of requested elements
             let mut parse = util::parse_header_value(value.as_str()); // TODO: remove conversion
 
+            // a quality value like `q=NaN` parses as a float but compares with nothing: such elements are
+            // dropped, so that the comparison below is a total order (`sort_by` may panic otherwise)
+            parse.retain(|elem| !elem.1.is_nan());
+
             // sorting elements by most priority
             parse.sort_by(|a, b| b.1.partial_cmp(&a.1).unwrap_or(Ordering::Equal));
 
